@@ -41,14 +41,27 @@ away"), for the replies that carry a checked serial:
   open — what `SerialMap::insert` guarantees); the driver checks it on every `cs` line of every trace of the
   real client (`reused-serial`).
 
-Partial (see DESIGN.md): that the *broker* emits the serial-less messages only in those client states is the
-remaining part of the composed-system invariant; it is not a theorem here. It is checked by the runs of `harness/src/bin/sys.rs`
+* `listener_messages_never_refused` — bus listeners: in every interleaving, whatever the broker has put into a
+  client's queue about its listeners — replies to create / destroy / start / stop, the tagged created-events that
+  answer a start, the end-of-current marker — is not refused when the client gets to it: the listener is known, a
+  start finds it stopped, a stop finds it started, tagged events come only between a start whose scope includes
+  what exists and its marker, and the marker comes once. Rests on exact characterisations of the four listener
+  handlers (Lemmas/Broker/ListenerSpec.lean), on "a connection that is gone or whose task has ended never comes
+  back" for all handlers, clean-up and the work loop (Lemmas/Broker/Alive.lean), on "no other request and nothing
+  in the work loop touches another connection's listeners or emits a tagged message", and on the client's listener
+  book-keeping being a machine of its own that commutes with sending (Lemmas/Client/ListenerView.lean). The
+  invariant (`LSysInv`, Lemmas/Client/ListenerAgreement.lean) relates, per live connection, the broker's listener
+  table to the client's listener map *after* the client will have handled what is on its way to it.
+
+Partial (see DESIGN.md): the same for channels (items, capacity, claimed / closed ends, claim replies), calls and
+subscriptions (`NotSupported`) is the remaining part of the composed-system invariant; it is not a theorem here. It is checked by the runs of `harness/src/bin/sys.rs`
 (real broker, 2-4 real clients, PRNG-chosen schedule, FIFO sizes 1..16 and unbounded), whose transport traces
 are replayed through this model. Lost wake-ups, fairness of `select` and back-pressure are runtime behaviour
 no theorem about this model can exhibit; the same runs check them (quiescence implies completion).
 -/
 import Aldrin.Lemmas.Client.Serial
 import Aldrin.Lemmas.Client.Agreement
+import Aldrin.Lemmas.Client.ListenerAgreement
 
 namespace Aldrin.Client
 open Aldrin.Broker
@@ -232,6 +245,14 @@ theorem broker_replies_never_refused (es : List SysEv) (s : Sys) (hr : sysRun {}
   have hx := replies_carry_open_serials es s hr c l hl m (by simp [hd]) k n hk
   exact known_serial_not_refused l.mon m k n hp (strictKey_kind hk).2 hx
 
+open Aldrin.System in
+/-- In every interleaving of the composed system, the next message of a client, if it is about its bus listeners, is
+not refused. -/
+theorem listener_messages_never_refused (es : List SysEv) (s : Sys) (hr : sysRun {} es = some s)
+    (c : ConnId) (l : Link) (hl : s.links c = some l) (m : Rsp) (rest : List Rsp) (hd : l.down = m :: rest)
+    (hL : isL m = true) : onRecv l.mon m ≠ .unexpected :=
+  listener_head_accepted (sysRun_linv es {} s hr SysInv_init LSysInv_init).2 hl hd hL
+
 namespace SystemExample
 open Aldrin.System
 
@@ -245,6 +266,19 @@ example : (sysRun {} hist).bind (fun s => (s.links 1).map (·.down)) = some [.sy
 example : (sysRun {} (hist ++ [.clientHandles 1, .clientHandles 1, .clientHandles 2])).isSome = true := by decide
 /-- the assumption is needed: a second `sync 7` while the first is open cannot be sent -/
 example : (sysRun {} (hist ++ [.clientSends 1 (.sync 7)])).isSome = false := by decide
+
+/-- a listener is created, given a filter, started for what exists (one object of client 2), stopped; every message
+is handled by client 1 -/
+def listenerHist : List SysEv :=
+  [.attach 1 20, .attach 2 20, .clientSends 2 (.createObject 0 5), .brokerHandles 2,
+   .clientSends 1 (.createBusListener 0), .brokerHandles 1, .clientHandles 1,
+   .clientSends 1 (.addFilter 1 (.object none)), .clientSends 1 (.startBusListener 0 1 .all), .brokerHandles 1, .brokerHandles 1,
+   .clientSends 1 (.stopBusListener 0 1), .brokerHandles 1]
+
+example : (sysRun {} listenerHist).bind (fun s => (s.links 1).map (·.down)) =
+    some [.startBusListenerReply 0 .ok, .emitBusEvent (some 1) (.objCreated ⟨5, 0⟩), .busListenerCurrentFinished 1,
+          .stopBusListenerReply 0 .ok] := by decide
+example : (sysRun {} (listenerHist ++ [.clientHandles 1, .clientHandles 1, .clientHandles 1, .clientHandles 1])).isSome = true := by decide
 
 end SystemExample
 
